@@ -30,6 +30,7 @@ def check(chk):
     r27(chk, m)
     from . import shared
     shared.grouping_rules(chk, m, 'R2.8')
+    c04.chain_rules(chk, m, 'R2.9')       # which definition is in force: lookup through the frames, nothing copied between them
     chk.decline('equality of the processed text with an independent TeX evaluation of the program (value-level over token '
                 'streams; a static encoding would be an interpreter for TeX expansion)')
     chk.decline('delimited-parameter matching for concrete argument shapes; \\csname / \\expandafter reordering results')
@@ -255,8 +256,8 @@ def r25(chk, m):
                     'undelimited parameters (\\def\\a#1#{[#1]}\\a xyz{b} gives [x]zb)' % cc, chk.where(inv, node), 'stored by the writer')
 
 
-def r26(chk, m):
-    R = chk.rule('R2.6', 'a token list obtained from invoke()/expand() may be the stored definition itself (Definition.invoke '
+def r26(chk, m, rule_id='R2.6'):
+    R = chk.rule(rule_id, 'a token list obtained from invoke()/expand() may be the stored definition itself (Definition.invoke '
                  'returns self.definition): no function of the package edits such a list in place', 3)
     n = 0
     for fn in E.all_functions(m):
